@@ -4,10 +4,16 @@
 package internal
 
 // UnquoteAll drives the combinator parser (closures over mutable parser
-// state, outside the verifier's subset): assumed to be a pure function of its
-// argument that always returns.
+// state, outside the verifier's subset). ASSUMED: it is a pure function of its
+// argument (`unquoted`). VERIFIED on the loop around the parser, for an
+// arbitrary parser: a value is either returned exactly as given, or it was
+// consumed to its end as a sequence of literals — text after a literal that is
+// not itself a literal never silently disappears (property C20: malformed
+// arguments are not accepted in part).
 //@ func UnquoteAll
-//@   trusted
 //@   modifies nothing
-//@   ensures result == unquoted(s)
+//@   unchecked nil@call:colval.ColumnValue.String   // the parser stores the literal it accepted into cv (assumed: parser internals)
+//@   ensures-assumed result == unquoted(s)
+//@   ensures empty: imp(len(s) == 0, result == "")
+//@   ensures-local as-given-or-consumed-to-the-end: imp(len(s) > 0, result == s || p.Remaining == "")
 //@ ufunc unquoted(s) string
